@@ -44,6 +44,8 @@ func gen(t *rapid.T) Case {
 		}
 		return parent + "/" + name
 	}
+	isGroup := map[string]bool{"/": true}
+	groupLinks := 0
 	kinds := []string{"group", "group", "group", "dataset", "dataset", "hard", "hard", "dup", "orphan"}
 	if rapid.IntRange(0, 3).Draw(t, "withSoftExtDense") == 0 { // one case in four uses the link kinds that fall into open findings
 		kinds = append(kinds, "soft", "ext", "densegroup")
@@ -70,6 +72,7 @@ func gen(t *rapid.T) Case {
 		switch kind {
 		case "group":
 			op = hist.Op{K: "group", Path: path}
+			isGroup[path] = true
 			if depth <= 6 {
 				groups = append(groups, path)
 			}
@@ -82,7 +85,23 @@ func gen(t *rapid.T) Case {
 			switch r := rapid.IntRange(0, 9).Draw(t, "tgt"); {
 			case len(objects) > 0 && r < 8:
 				tgt = objects[rapid.IntRange(0, len(objects)-1).Draw(t, "tgtIdx")]
-			case r == 8 && parent != "/":
+				if isGroup[tgt] {
+					// every further name for a group multiplies the number of paths below it (for the model, for the library's
+					// Walk and for the observation alike): a handful per history shows everything sharing can show
+					if groupLinks >= 4 {
+						tgt = "/missing"
+						for _, o := range objects {
+							if !isGroup[o] {
+								tgt = o
+								break
+							}
+						}
+					} else {
+						groupLinks++
+					}
+				}
+			case r == 8 && parent != "/" && groupLinks < 4:
+				groupLinks++
 				tgt = parent // link to the own parent: an ancestor cycle
 			}
 			op = hist.Op{K: "hard", Path: path, Target: tgt}
@@ -103,7 +122,14 @@ func gen(t *rapid.T) Case {
 			var links [][2]string
 			k := rapid.IntRange(0, 12).Draw(t, "nlinks")
 			for j := 0; j < k && len(objects) > 0; j++ {
-				links = append(links, [2]string{fmt.Sprintf("l%d", j), objects[rapid.IntRange(0, len(objects)-1).Draw(t, "tgtIdx")]})
+				tg := objects[rapid.IntRange(0, len(objects)-1).Draw(t, "tgtIdx")]
+				if isGroup[tg] {
+					if groupLinks >= 4 {
+						continue
+					}
+					groupLinks++
+				}
+				links = append(links, [2]string{fmt.Sprintf("l%d", j), tg})
 			}
 			op = hist.Op{K: "densegroup", Path: path, Links: links}
 		case "dup":
